@@ -408,10 +408,35 @@ def firstValue (hs : List Hdr) (key : Bytes) : Option Bytes :=
   | none => none
 
 /-- last value of the headers whose lower-cased name is `key` (`cookie_header_value = Some(..)` overwrites) -/
-def lastValue (hs : List Hdr) (key : Bytes) : Option Bytes :=
-  hs.foldl (fun acc h => if lower h.name == key then (match h.value with | some v => some v | none => acc) else acc) none
+def lastValue : List Hdr → Bytes → Option Bytes
+  | [], _ => none
+  | h :: r, key =>
+    match lastValue r key with
+    | some v => some v
+    | none => if lower h.name == key then h.value else none
 
 def usizeMax : Nat := 18446744073709551615
+
+def cookiesOfHeader : Option Bytes → List Cookie
+  | some v => parseCookies v
+  | none => []
+
+/-- the second half of `parse_request`: split out Cookie / Referer, first-wins map, cookies -/
+def assembleReq (m u : Bytes) (ver : Ver) (all : List Hdr) (l0 : Bytes) (info : Meta) : ParsedReq :=
+  let isCookie := fun (h : Hdr) => lower h.name == ascii "cookie"
+  let isReferer := fun (h : Hdr) => lower h.name == ascii "referer"
+  let headers := all.filter (fun h => !isCookie h && !isReferer h)
+  let cookies := if HttpLists.parseCookies then cookiesOfHeader (lastValue all (ascii "cookie")) else []
+  { method := m, uri := u, ver := ver, headers := headers, cookies := cookies,
+    referer := lastValue all (ascii "referer"),
+    contentLength := (firstValue headers (ascii "content-length")).bind (parseUnsigned usizeMax),
+    transferEncoding := firstValue headers (ascii "transfer-encoding"),
+    connection := firstValue headers (ascii "connection"),
+    host := firstValue headers (ascii "host"),
+    userAgent := firstValue headers (ascii "user-agent"),
+    acceptLanguage := firstValue headers (ascii "accept-language"),
+    rawLine := l0,
+    info := { info with requestLineLen := l0.length } }
 
 def parseRequestHead (hd : Bytes) : Outcome ParsedReq :=
   if !utf8Valid hd then .err .invalidUtf8 else
@@ -423,26 +448,18 @@ def parseRequestHead (hd : Bytes) : Outcome ParsedReq :=
   | .ok (m, u, ver) =>
     match parseHeaders (headerLinesOf lines) with
     | .error e => .err e
-    | .ok (all, info) =>
-      let isCookie := fun (h : Hdr) => lower h.name == ascii "cookie"
-      let isReferer := fun (h : Hdr) => lower h.name == ascii "referer"
-      let headers := all.filter (fun h => !isCookie h && !isReferer h)
-      let cookies := if HttpLists.parseCookies then
-          (match lastValue all (ascii "cookie") with | some v => parseCookies v | none => [])
-        else []
-      .ok { method := m, uri := u, ver := ver, headers := headers, cookies := cookies,
-            referer := lastValue all (ascii "referer"),
-            contentLength := (firstValue headers (ascii "content-length")).bind (parseUnsigned usizeMax),
-            transferEncoding := firstValue headers (ascii "transfer-encoding"),
-            connection := firstValue headers (ascii "connection"),
-            host := firstValue headers (ascii "host"),
-            userAgent := firstValue headers (ascii "user-agent"),
-            acceptLanguage := firstValue headers (ascii "accept-language"),
-            rawLine := l0,
-            info := { info with requestLineLen := l0.length } }
+    | .ok (all, info) => .ok (assembleReq m u ver all l0 info)
 
 /-- `Http1Parser::parse_request` -/
 def parseRequest (data : Bytes) : Outcome ParsedReq := parseRequestHead (headBytes data)
+
+def assembleRes (ver : Ver) (code : Nat) (reason : Bytes) (headers : List Hdr) (l0 : Bytes) (info : Meta) : ParsedRes :=
+  { ver := ver, status := code, reason := reason, headers := headers,
+    contentLength := (firstValue headers (ascii "content-length")).bind (parseUnsigned usizeMax),
+    transferEncoding := firstValue headers (ascii "transfer-encoding"),
+    server := firstValue headers (ascii "server"),
+    contentType := firstValue headers (ascii "content-type"),
+    rawLine := l0, info := info }
 
 def parseResponseHead (hd : Bytes) : Outcome ParsedRes :=
   if !utf8Valid hd then .err .invalidUtf8 else
@@ -454,13 +471,7 @@ def parseResponseHead (hd : Bytes) : Outcome ParsedRes :=
   | .ok (ver, code, reason) =>
     match parseHeaders (headerLinesOf lines) with
     | .error e => .err e
-    | .ok (headers, info) =>
-      .ok { ver := ver, status := code, reason := reason, headers := headers,
-            contentLength := (firstValue headers (ascii "content-length")).bind (parseUnsigned usizeMax),
-            transferEncoding := firstValue headers (ascii "transfer-encoding"),
-            server := firstValue headers (ascii "server"),
-            contentType := firstValue headers (ascii "content-type"),
-            rawLine := l0, info := info }
+    | .ok (headers, info) => .ok (assembleRes ver code reason headers l0 info)
 
 /-- `Http1Parser::parse_response` -/
 def parseResponse (data : Bytes) : Outcome ParsedRes := parseResponseHead (headBytes data)
@@ -614,18 +625,18 @@ def absentHeaders (isReq : Bool) (hs : List Hdr) : List SigHdr :=
 
 def unknownSw : Bytes := ascii "???"
 
+/-- `req.accept_language.and_then(get_highest_quality_language)`; outer `none`: outside the model's grammar -/
+def langOfHeader : Option Bytes → Option (Option Bytes)
+  | none => some none
+  | some al => highestQualityLanguage al
+
 /-- outer `none`: Accept-Language outside the model's grammar -/
 def toObsReq (r : ParsedReq) : Option ObsReq :=
-  let lang : Option (Option Bytes) := match r.acceptLanguage with
-    | none => some none
-    | some al => highestQualityLanguage al
-  match lang with
-  | none => none
-  | some lang =>
-    some { ver := r.ver, horder := convertHeaders true r.headers, habsent := absentHeaders true r.headers,
-           expsw := r.userAgent.getD unknownSw, lang := lang, userAgent := r.userAgent,
-           headers := r.headers, cookies := r.cookies, referer := r.referer,
-           method := r.method, uri := r.uri }
+  (langOfHeader r.acceptLanguage).map (fun lang =>
+    { ver := r.ver, horder := convertHeaders true r.headers, habsent := absentHeaders true r.headers,
+      expsw := r.userAgent.getD unknownSw, lang := lang, userAgent := r.userAgent,
+      headers := r.headers, cookies := r.cookies, referer := r.referer,
+      method := r.method, uri := r.uri })
 
 def toObsRes (r : ParsedRes) : ObsRes :=
   { ver := r.ver, horder := convertHeaders false r.headers, habsent := absentHeaders false r.headers,
